@@ -124,6 +124,7 @@ Verdict compareResult(Ctx* c, const Model& m, const std::set<size_t>& expected, 
 struct Sel { std::vector<int> idx; bool empty{false}; bool missing{false}; bool close{false}; };
 
 Verdict runCase(Ctx& c, bool maxPart, const sgen::Spec& sp, const Sel& sel, uint64_t idSeed) {
+  sgen::debugShow(c);
   c.exec();
   ccl::tools::EntityGenerator::VerifSeed(idSeed * 7919ULL + 13ULL);
   RSForm schema;
